@@ -40,22 +40,95 @@ from common import run_driver  # noqa: E402
 from props.moncommon import Mon, DEVS, WIDTHS, install_timer, tohex  # noqa: E402
 
 ID = 'C18'
-LEAN_MODULES = ['Py65.Props.C18']
-NAMESPACES = ['Py65.Props.C18']
+LEAN_MODULES = ['Py65.Props.C18', 'Py65.Proofs.MonIOGenEq', 'Py65.Props.C18g', 'Py65.Proofs.ConsoleGenEq',
+                'Py65.Props.C18gc']
+NAMESPACES = ['Py65.Props.C18', 'Py65.Proofs.MonIOGenEq', 'Py65.Props.C18g', 'Py65.Proofs.ConsoleGenEq',
+              'Py65.Props.C18gc']
 LEVEL = 'proof'
 USES_PROLOGUE = True
-USES_GEN = False
+USES_GEN = True      # Proofs/MonIOGenEq ties the modelled device-class constants to the CPU-generated Cfg
 EXPECTED_THEOREMS = [
     'Py65.Props.C18.io_trace', 'Py65.Props.C18.io_mapping_stable', 'Py65.Props.C18.io_session',
+    # tie by regeneration: generated methods / closures = hand model, and the theorems restated for them
+    'Py65.Proofs.MonIOGenEq.cls_widths', 'Py65.Proofs.MonIOGenEq.microprocessors_eq',
+    'Py65.Proofs.MonIOGenEq.get_mpu_spec', 'Py65.Proofs.MonIOGenEq.get_mpu_eq',
+    'Py65.Proofs.MonIOGenEq.get_mpu_own_name',
+    'Py65.Proofs.MonIOGenEq.getc_eq', 'Py65.Proofs.MonIOGenEq.putc_eq', 'Py65.Proofs.MonIOGenEq.putc_unencodable',
+    'Py65.Proofs.MonIOGenEq.putc_not_a_code_point', 'Py65.Proofs.MonIOGenEq.call_putc',
+    'Py65.Proofs.MonIOGenEq.call_getc', 'Py65.Proofs.MonIOGenEq.accessG_good',
+    'Py65.Proofs.MonIOGenEq.replayG_good', 'Py65.Proofs.MonIOGenEq.install_spec',
+    'Py65.Proofs.MonIOGenEq.install_eq', 'Py65.Proofs.MonIOGenEq.install_none',
+    'Py65.Proofs.MonIOGenEq.reset_eq', 'Py65.Proofs.MonIOGenEq.sessOf_resetSt',
+    'Py65.Proofs.MonIOGenEq.do_reset_eq', 'Py65.Proofs.MonIOGenEq.available_mpus_eq',
+    'Py65.Proofs.MonIOGenEq.do_mpu_eq', 'Py65.Proofs.MonIOGenEq.applyCmdG_eq',
+    'Py65.Proofs.MonIOGenEq.applyCmdsG_eq', 'Py65.Proofs.MonIOGenEq.parse_loop_eq',
+    'Py65.Proofs.MonIOGenEq.parse_args_eq', 'Py65.Proofs.MonIOGenEq.init_eq',
+    'Py65.Proofs.MonIOGenEq.parse_optsOf', 'Py65.Proofs.MonIOGenEq.init_construct',
+    'Py65.Props.C18g.io_trace', 'Py65.Props.C18g.io_mapping_stable', 'Py65.Props.C18g.io_session',
+    'Py65.Props.C18g.defaults', 'Py65.Props.C18g.reset_recreates', 'Py65.Props.C18g.reset_zero_is_an_address',
+    # the console side: getch_noblock (POSIX) + as_string (Python 3) regenerated
+    'Py65.Proofs.ConsoleGenEq.as_string_eq', 'Py65.Proofs.ConsoleGenEq.decode_latin1',
+    'Py65.Proofs.ConsoleGenEq.decode_utf8_high_byte', 'Py65.Proofs.ConsoleGenEq.getch_noblock_eq',
+    'Py65.Proofs.ConsoleGenEq.getch_noblock_eq_modes', 'Py65.Proofs.ConsoleGenEq.getch_noblock_select_fault',
+    'Py65.Props.C18gc.console_delivers_every_byte', 'Py65.Props.C18gc.console_idle',
+    'Py65.Props.C18gc.getc_step_is_console', 'Py65.Props.C18gc.getc_delivers_every_byte',
 ]
 RULE = ('a case counts as non-trivial when its program made at least one access to an address congruent to I '
         'or O; distinct = distinct (device after the commands, class of I, class of O, command sequence kinds, '
         'number of I loads vs pending bytes class, sequence of access kinds to I/O/alias/neighbour/other) tuples')
 TRUSTED = [
-    'hand model Py65.Model.MonIO on top of Py65.Model.ObsMem -- tied to the real Monitor by sampled '
-    'correspondence only (this check)',
+    'REGENERATED on every run: Monitor.__init__ (the slice that stores mpu_type / memory / putc_addr / getc_addr, '
+    'defaults included, parses argv and calls _reset with the ATTRIBUTES), _parse_args (-i / -o with int(value, 16), '
+    '-m through _get_mpu, -h, -l/-r/-g, the GetoptError handler), _get_mpu (case-insensitive search of the class '
+    'table Microprocessors, itself read from the class body and the import lines), _reset (the `getc_addr is not None '
+    'and putc_addr is not None` test; device, parser, disassembler, assembler re-created), _install_mpu_observers '
+    'with its closures putc (chr, the UnicodeEncodeError branch, write, flush) and getc (getch_noblock, `if char:`, '
+    'ord) and the two subscribe_to_* calls at [self.putc_addr] / [self.getc_addr], do_reset, do_mpu (+ nested '
+    'available_mpus) are translated from the current py65/monitor.py by harness/py2lean_monio.py into '
+    'lean/Py65/Gen/MonIOGen.lean; Py65.Proofs.MonIOGenEq proves them equal to the hand model Py65.Model.MonIO for ALL '
+    'arguments and states (getc_eq, putc_eq, accessG_good / replayG_good: an access through the generated closures = '
+    'MonIO.access; install_spec, reset_eq = resetWith, do_reset_eq / do_mpu_eq / applyCmdsG_eq = applyCmds, '
+    'get_mpu_eq = devAddrWidth, parse_loop_eq for EVERY option list, init_construct = construct); Py65.Props.C18g '
+    'restates io_trace, io_mapping_stable, io_session for the generated definitions.  A source change that breaks an '
+    'equality, or that the translator refuses, is a broken tie',
+    'REGENERATED on every run as well (unit con of the same translator -> lean/Py65/Gen/ConsoleGen.lean): the POSIX '
+    'branch of py65/utils/console.py getch_noblock (select, stdin.read(1), as_string(..., <codec literal>), '
+    '`except KeyboardInterrupt: raise`, the bare `except: pass`, `if len(char) and ord(char) == 10: char = \'\\r\'`) '
+    'and the Python-3 branch of py65/compat.py as_string (isinstance(s, str), s.decode(encoding), the default codec); '
+    'Py65.Proofs.ConsoleGenEq proves getch_noblock = the step MonIORt.getchNoblock the generated getc uses (pop one '
+    'pending byte, Latin-1, LF as CR, \'\' when none) for EVERY queue, in binary and text mode, with the write end '
+    'open or closed, and what happens on an error out of select; Py65.Props.C18gc restates "every byte value is '
+    'delivered unchanged except 10 -> 13, one per load".  The codec literal is checked by the translator: \'latin-1\' '
+    'and \'utf-8\' have a run-time model (pyDecode; with utf-8 the equality fails: decode_utf8_high_byte), any other '
+    'literal is refused.  MODELLED there: select / stdin.read(1) on the queue of pending bytes with optional faults '
+    '(ConEnv), bytes.decode for the two codecs, noncanonical_mode skipped by name (checked to be one '
+    '`try: ... except: pass`), the Windows branch and getch are not translated',
+    'hand model Py65.Model.MonIO on top of Py65.Model.ObsMem (the driver runs it; ObsMem itself is regenerated and '
+    'proved equal in C10) -- tied to the real Monitor additionally by this sampled correspondence',
+    'harness/py2lean_monio.py (Python subset -> Lean, on the machinery of py2lean_mon.py; evaluation order and the '
+    'static resolution of try/except for the accepted subset are modelled, not verified; facts it checks: the imports, '
+    'the bodies of _output / _exit / _usage, that putc_addr / getc_addr / mpu_type / memory / _mpu / the width '
+    'attributes / the parser, disassembler, assembler are assigned only in __init__ / _parse_args / _reset, that the '
+    "device's memory object is replaced only in _install_mpu_observers, that _reset / _install_mpu_observers / "
+    '_parse_args are called only from __init__, do_reset, do_mpu / _reset / __init__) and the helpers of '
+    'lean/Py65/Model/MonIORt.lean the generated text calls, MODELLED not verified: the device classes (name, '
+    'ADDR_WIDTH, BYTE_WIDTH, ADDR_FORMAT, BYTE_FORMAT, addrMask, byteMask; the widths and masks are proved equal to '
+    'the CPU-generated Cfg, cls_widths) and their constructor (memory=None: fresh zeroed list), ObservableMemory(...) '
+    '= ObsMem.init (subject assumed of default length), AddressParser / Disassembler / Assembler constructors (record '
+    'what they were given, fresh identity), stdout = code points written + how many flushed with an arbitrary '
+    'encodable-set Env.enc, stdin = queue of pending bytes, console.getch_noblock = pop one byte (Latin-1, LF as CR) '
+    "or '', chr / ord, str.lower (ASCII), sorted / list.sort, str.join, dict.keys / items in insertion order, "
+    'int(s, 16) = PyStr.pyIntL, l[1:]; getopt.getopt is UNINTERPRETED (Env.getopt: the theorems hold for every '
+    'function; init_construct assumes it returns the options [-m NAME] [-i X] [-o Y]), sys.argv and the usage text '
+    'are parameters, the start-up actions -l / -g / -r of __init__ (after _reset) are uninterpreted state '
+    'transformers guarded by the translated `is not None` tests, the statements of __init__ that concern other units '
+    '(_breakpoints, _width, prompt, _add_shortcuts, console.save_mode, unbuffered stdin, cmd.Cmd.__init__) are '
+    'skipped by their exact text, `except: console.restore_mode(); raise` is transparent',
     'the OS side of getc (select + read(1) on a dup of the stdin descriptor, termios calls failing quietly on '
     'a pipe) is replaced in the model by a queue of pending bytes',
+    'the glue MonIOGenEq.accessG / replayG (one device access on self._mpu.memory: the ObservableMemory model calls '
+    'callbacks by identity; their answers and effects come from running the generated closures, answered from the '
+    'state at the start of the access -- exact because an access of this memory calls at most one callback)',
     'io_trace composes with C12 (each architectural load/store is one item access) to "once per access" for '
     'programs; here the access log is observed on the real device through a recording proxy',
     'the Python oracle of this module',
@@ -66,7 +139,18 @@ ASSUMPTIONS = [
     'addresses that alias through the 256 K physical memory of the 65Org16 are the same cell',
     'the program is not located at I or O and the monitor itself does not display I (mem / disassemble of I '
     'would consume input): only the running program accesses memory',
+    'tie by regeneration: the stored values are code points the stdout stream can encode (okEv; every value of the '
+    'three devices on a StringIO -- for an unencodable one the generated putc provably prints `?`, for a value that '
+    'is not a code point chr raises: putc_unencodable, putc_not_a_code_point); the constructor theorem is for '
+    'command lines whose options are [-m NAME] [-i X] [-o Y] (the general loop is parse_loop_eq)',
 ]
+
+
+def pre_build(ctx):
+    """translator tie: regenerate lean/Py65/Gen/MonIOGen.lean from the current monitor.py"""
+    from props import iotie
+    return iotie.pre_build(ctx)
+
 
 PHYS = {'6502': 0x10000, '65C02': 0x10000, '65Org16': 0x40000}
 DEVOF = {'6502': '6502', '65c02': '65C02', '65org16': '65Org16'}
